@@ -1196,3 +1196,87 @@ func checkCallbackErrorsPropagate(r *Report, s *Sem, rule string) {
 	}
 	check(est, "the establishing send")
 }
+
+// checkOnlyReceiverFeedsStreams: every send on an inbound stream is made by the receiver goroutine (or a literal nested in it).
+func checkOnlyReceiverFeedsStreams(r *Report, s *Sem, rule string) {
+	p := r.P
+	a := s.anchors()
+	if a.receiver == nil {
+		r.Undecided(rule, "anchor-unresolved:receiver", "-", "receiver goroutine not found")
+		return
+	}
+	for _, fn := range p.LimeFuncs() {
+		eachInstr(fn, func(in ssa.Instruction) {
+			var chans []ssa.Value
+			switch x := in.(type) {
+			case *ssa.Send:
+				chans = append(chans, x.Chan)
+			case *ssa.Select:
+				for _, st := range x.States {
+					if st.Dir == types.SendOnly {
+						chans = append(chans, st.Chan)
+					}
+				}
+			}
+			for _, ch := range chans {
+				for _, l := range leaves(ch) {
+					f := s.chanField(l)
+					if f == nil {
+						continue
+					}
+					for _, sf := range a.streams {
+						if sf == f {
+							r.Check(rule, "func "+fnName(fn)+" / feeds "+f.Name(), p.instrPos(in), enclosedBy(fn, a.receiver),
+								"only the receiver goroutine — which runs only while the session is established — may put an envelope on an inbound stream; a handshake read that parks a data envelope there delivers it once the session is established")
+						}
+					}
+				}
+			}
+		})
+	}
+}
+
+// checkBuilderPublishesEstablished: the client's channel builder returns a channel only on the edge
+// ses.State == established (and err == nil) of the handshake's own result.
+func checkBuilderPublishesEstablished(r *Report, s *Sem, R2 string, build, est *ssa.Function) {
+	p := r.P
+	var estCall *ssa.Call
+	eachInstr(build, func(in ssa.Instruction) {
+		if c, ok := in.(*ssa.Call); ok && c.Call.StaticCallee() == est {
+			estCall = c
+		}
+	})
+	if estCall == nil {
+		r.Undecided(R2, "func "+fnName(build)+" / EstablishSession call", p.pos(build.Pos()), "not found")
+	} else {
+		var ses ssa.Value
+		for _, ref := range *estCall.Referrers() {
+			if ex, ok := ref.(*ssa.Extract); ok && ex.Index == 0 {
+				ses = ex
+			}
+		}
+		okPub, n := true, 0
+		for _, rl := range returnLeaves(build, 0) {
+			if isNilConst(rl.v) {
+				continue
+			}
+			n++
+			g := condGuard(rl.b, func(cd Cond) bool {
+				if cd.Op != token.EQL {
+					return false
+				}
+				x, y := cd.X, cd.Y
+				if _, isC := stripConv(x).(*ssa.Const); isC {
+					x, y = y, x
+				}
+				cs, ok := constString(stripConv(y))
+				return ok && cs == "established" && ses != nil && fieldOf(x, ses, "State")
+			})
+			if !g || !errNilGuard(rl.b, estCall) {
+				okPub = false
+			}
+		}
+		r.Check(R2, "func "+fnName(build)+" / publishes only an established channel", p.instrPos(estCall), okPub && n > 0, "the channel may be returned only on the edge ses.State == established (and err == nil) of EstablishSession's own result")
+	}
+
+}
